@@ -119,7 +119,15 @@ PROP = {
             "resumed lives are compared op for op with the model (c8d: setRunIdSys / verifyRunId / delRunIdSys / XDisk.reopened + xstep); every prefix (and torn write) of them is a base "
             "directory whose every id directory is re-opened by the real code (compared with the model, monitored against ITS id's source), and a new process' real VerifyRunId(ids) on it "
             "is compared with the model's (c8V: id taken, current id, offset returned). Retention, writer liveness and 'a deleted cache is gone' (C06/C16) are counted as notes. At RUNTIME after a "
-            "short write the reported range must equal the bytes in the files. Scripts reach the child through a file (no size limit). distinct_nontrivial = distinct directory images re-opened",
+            "short write the reported range must equal the bytes in the files. Scripts reach the child through a file (no size limit). distinct_nontrivial = distinct directory images re-opened. "
+            "DIMENSION AUDIT (session 5, last round; every value has a coverage counter): cfg_verifyCrc_{true,false} for both reader kinds on every re-opened image; cfg_flush_{-,e,d,t} (channel.storer.flush: EveryWrite / "
+            "DirtySize / Duration — drawn per random script; fsync is not compared); cfg_logSize_<n> incl. FORCED 16 (= header size: every append rotates) and 17; cfg_maxSize_{zero,1,…}; FORCED edge scripts on every run "
+            "(genEdgeScripts): snapshots of 1 / 8 bytes (never verified), 9 bytes with / without a valid footer / all zero, offset 0 (snapshot at 0 + stream from 0, a stream alone from 0), an empty live segment at the death, a "
+            "writer replaced on an empty live segment, maxSize 1 with a snapshot held; per CLOSED segment of the final image (position counted: only / oldest / middle / newest): data bit, last piece, size, crc, truncated, "
+            "extended, tail zeroed, payload zeroed, all zeroed, cut to the header (-> a gap: TruncateGap), halved, and the BENIGN alterations version byte / reserved bytes (accepted, every byte still the source's: "
+            "version_reserved_ignored); segments the crash left LIVE (with data: a data bit with verification; empty: counted); a .rdb.tmp of other bytes NEXT TO the committed snapshot of the same offsets plus stray files "
+            "(stray.txt, 12x.aof, 7_.rdb, _7.rdb, 1_2_3.rdb): answers and bytes unchanged; a SECOND re-opening after every first one that deleted files (monitor reopen-not-idempotent); source fact: pkg/store has 4 "
+            "package-level variables, none written after init (go/ast in the harness: a written one is a broken tie)",
     "trusted": [
         "strace's rendering of the syscalls and the harness' parser of it (harness/overlay/pkg/store/vf_c08_test.go; any of "
         "write/writev/pwrite64/pwritev/ftruncate/O_APPEND/O_TRUNC is turned into 'bytes at an offset of a file'; failed calls (= -1 E…) on the directory are "
@@ -212,6 +220,9 @@ PROP = {
         "a random tail zeroed, the last 4096-byte block zeroed, everything zeroed (monitors altered-snapshot-accepted, snapshot-bytes-wrong; compared with the model). NOT covered: snapshots of at most 8 bytes and snapshots "
         "the source sent WITHOUT a valid footer (rdbchecksum no) are refused by every verifying reader, as the code does — verification on makes such a cache useless, an availability matter outside the property; a reader "
         "already open when the file is altered is not re-verified",
+        "dimension audit, NOT drawn (stated): file names with a sign (strconv.ParseInt accepts '+5.aof' / '-5.aof'; the model's names are naturals; the writers never produce them; 23dcc75 closed the one path that wrote "
+        "'-1.aof'), offsets near max int64, a stray regular FILE in the BASE directory asked for as an id, FlushPolicy.Auto; a snapshot of at most 8 bytes that is ALTERED is served by a verifying reader (no checksum can be "
+        "recorded in it — inherent, as the code); VerifyRunId takes an EMPTY directory asked first with offset -1 (model = code: `newest == 0` is the only 'nothing held' answer it skips; which id is right is C06's)",
         "the literal syscall list is compared with the model: a rewrite that coalesces or splits writes, opens with other flags or writes the header with pwrite gives a DIFF (tie failure), not a violation; "
         "the crash images themselves are always built from the syscalls that really occurred",
         "crc_mismatch_refused for arbitrary alterations is 'refused unless length equal and CRC64 collides' (altered_data_accepted_iff); "
